@@ -4,7 +4,13 @@ The retry wrapper is decided END TO END on representative values: the statements
 parameters) are abstractly interpreted for a representative parameter dict and constructor flag up to the attempt loop (`world`), then ONE iteration of the loop body is interpreted for
 one outcome of the delegate (an exception class placed in the REAL, parsed library hierarchy, or a representative result) — `attempt`. No role is read off a name: which local carries
 which setting, how the last attempt is recognised, where the result is tested and which helper does it are all irrelevant, only the values that reach the loop bound, the tests, the
-sleep and the return count. Nothing of the repository is executed: `minieval.ev` evaluates the extracted expressions, the small interpreter below only sequences statements."""
+sleep and the return count. Nothing of the repository is executed: `minieval.ev` evaluates the extracted expressions, the small interpreter below only sequences statements.
+
+Hardening round 3: the settings may live in an OBJECT of another class of the module that the call builds itself (dataclass / NamedTuple with the generated constructor - fields bound in
+declaration order, declared defaults, __post_init__ -, a class with its own __init__, collections.namedtuple, SimpleNamespace, TypedDict), built directly or by a class / static method
+(alternative constructor) or module function; its methods, coroutine methods and properties are followed like helpers of the wrapper. The attempt's exception may be classified by
+`isinstance` (in one broad handler or a helper) instead of by except clauses: decided in the same parsed library hierarchy. Registered runners are classified by what they ARE (instance of
+the wrapper class or a subclass, through an alias or a factory function) instead of by the spelling `Retry(...)`."""
 from __future__ import annotations
 
 import ast
@@ -82,7 +88,26 @@ class _Coro:
         self.thunk = thunk
 
 
+class _Cls:
+    """a class of the analysed module used as a value: the `cls` of a classmethod, a constructor"""
+
+    def __init__(self, ci):
+        self.ci = ci
+
+
+class _Obj(Record):
+    """an instance of a class of the analysed module that the analysed code builds itself (a settings object: dataclass, NamedTuple, class with __init__): fields are what its
+    constructor stores, whatever they are called"""
+
+    def __init__(self, ci, **fields):
+        super().__init__(**fields)
+        self.ci, self.frozen, self.is_tuple = ci, False, False
+
+
 _OPAQUE = object()
+_DATACLASS = ("dataclass", "dataclasses.dataclass")
+_PROPERTY = ("property", "cached_property", "functools.cached_property")
+_FACTORIES = {"dict": dict, "list": list, "set": set, "tuple": tuple}
 _AUG = {ast.Add: operator.add, ast.Sub: operator.sub, ast.Mult: operator.mul}
 _DICT_METHODS = ("pop", "setdefault", "update", "clear", "copy", "popitem")
 
@@ -92,6 +117,7 @@ class Interp:
         self.rn, self.tab, self.ci, self.H = rn, tab, ci, H
         self.delegate_attrs = set(delegate_attrs)
         self.modfuncs = {n.name: n for n in rn.tree.body if isinstance(n, FUNC_TYPES)}
+        self.modclasses = {c.name: c for c in tab.classes if any(c.node is x for x in rn.tree.body)}
         self.globals = {}
         for nm, tgt in rn.imports.items():
             if tgt == "sys":
@@ -105,6 +131,7 @@ class Interp:
         self._n = 0
         self._hnames = {}
         self.unknown_classes = []
+        self._raw = None
         self.reset()
 
     def reset(self):
@@ -142,6 +169,11 @@ class Interp:
                 r = interp.call(n, env)
                 return n if r is None else interp.bind(env, r[0])
 
+            def visit_Attribute(self, n):
+                self.generic_visit(n)
+                r = interp.attribute(n, env) if isinstance(n.ctx, ast.Load) else None
+                return n if r is None else interp.bind(env, r[0])
+
             def visit_Await(self, n):
                 self.generic_visit(n)
                 v = n.value
@@ -174,6 +206,28 @@ class Interp:
                 m = self.tab.method(self.ci, f.attr)
                 if m is not None:
                     return (self.invoke(m, n, env, None if "classmethod" not in decorator_names(m) else next((v for v in env.values() if isinstance(v, _Self)), None)),)
+            if isinstance(f, ast.Attribute):
+                # a method of an object the analysed code built itself (settings object), a class / static method of another class of the module (alternative constructor)
+                recv = self.peek(f.value, env)
+                if isinstance(recv, _Obj):
+                    m = self.tab.method(recv.ci, f.attr) if recv.ci is not None else None
+                    if m is not None and not set(decorator_names(m)) & set(_PROPERTY):
+                        return (self.invoke(m, n, env, None if "staticmethod" in decorator_names(m) else (_Cls(recv.ci) if "classmethod" in decorator_names(m) else recv)),)
+                    return None
+                kls = recv.ci if isinstance(recv, _Cls) else self.class_named(f.value, env)
+                if kls is not None:
+                    m = self.tab.method(kls, f.attr)
+                    if m is not None:
+                        return (self.invoke(m, n, env, _Cls(kls) if "classmethod" in decorator_names(m) else None),)
+            if isinstance(f, ast.Name):
+                kls = env[f.id].ci if isinstance(env.get(f.id), _Cls) else self.class_named(f, env)
+                if kls is not None:
+                    return (self.construct(kls, n, env),)
+                nt = self.rn.module_constant(f.id) if f.id not in env and f.id not in self.rn.imports else None
+                if isinstance(nt, ast.Call) and last_attr(nt.func) == "namedtuple" and len(nt.args) == 2 and all(k.arg == "defaults" for k in nt.keywords):
+                    return (self.construct_namedtuple(nt, n, env),)
+            if (self.full_name(f, env) or "").split(".")[-1] == "SimpleNamespace" and not n.args and all(k.arg for k in n.keywords):
+                return (_Obj(None, **{k.arg: mev(k.value, env) for k in n.keywords}),)
             if isinstance(f, ast.Name) and f.id not in env:
                 if f.id in self.modfuncs:
                     return (self.invoke(self.modfuncs[f.id], n, env, None),)
@@ -190,6 +244,20 @@ class Interp:
                             return (mev(n.args[2], env),)
                 if f.id == "isinstance" and len(n.args) == 2 and (dotted(n.args[1]) or "").split(".")[-1] in ("Mapping", "MutableMapping"):
                     return (isinstance(mev(n.args[0], env), dict),)
+                if f.id == "isinstance" and len(n.args) == 2 and not n.keywords:
+                    # the exception of this attempt tested against library classes (classification by isinstance in one broad handler / in a helper instead of by except clauses):
+                    # decided in the same parsed hierarchy that selects the except clause
+                    obj = self.peek(n.args[0], env)
+                    cur = next((r for r in self.exc_stack if obj is not None and r.rec is obj and r.cls is not None), None)
+                    if cur is not None:
+                        t = n.args[1]
+                        if isinstance(t, ast.Name) and t.id not in self.rn.imports and t.id not in env:
+                            t = self.rn.module_constant(t.id) or t
+                        names = handler_type_names(ast.ExceptHandler(type=t, name=None, body=[]), module=self.rn)
+                        unknown = [nm for nm in names if not self.H.known(nm)]
+                        if unknown:
+                            raise CannotEval(f"isinstance against {unknown[0]}, which is not in the parsed library hierarchy")
+                        return (self.H.catches(names, cur.cls),)
             if self.full_name(f, env) == "asyncio.sleep":
                 vals = [mev(a, env) for a in n.args] + [mev(k.value, env) for k in n.keywords]
                 return (_Coro(lambda: self.sleeps.append((vals, n))),)
@@ -201,6 +269,167 @@ class Interp:
                         return (getattr(recv, f.attr)(*args),)
                     except (KeyError, TypeError, ValueError) as x:
                         raise CannotEval(f"{u(n)[:60]}: {type(x).__name__}")
+        except CannotEval:
+            return None
+        return None
+
+    def peek(self, e, env):
+        """the value of a receiver expression if it is computable without following calls, else None"""
+        if isinstance(e, ast.Name):
+            return env.get(e.id)
+        try:
+            return mev(e, env)
+        except CannotEval:
+            return None
+
+    def class_named(self, e, env):
+        """the top-level class of the analysed module that a bare name denotes (None: bound locally, or no such class)"""
+        if isinstance(e, ast.Name) and e.id not in env and e.id not in self.rn.imports:
+            return self.modclasses.get(e.id)
+        return None
+
+    def raw_body(self, c):
+        """the class body as written: the parse-time normalisation turns `x: T = v` into `x = v`, but only ANNOTATED class attributes are fields of a dataclass / NamedTuple"""
+        if self._raw is None:
+            self._raw = {(n.name, n.lineno): n for n in ast.walk(ast.parse(c.module.text)) if isinstance(n, ast.ClassDef)}
+        raw = self._raw.get((c.node.name, c.node.lineno))
+        if raw is None:
+            raise CannotEval(f"class {c.name} not found in the unnormalised source")
+        return raw.body
+
+    def data_fields(self, kls):
+        """[(field, default expr | None, init?)] of a dataclass / NamedTuple in definition order (base classes first), None for any other class"""
+        out, is_data = {}, False
+        for c in reversed(self.tab.mro(kls)):
+            decos = [d for d in c.node.decorator_list if (dotted(d.func if isinstance(d, ast.Call) else d) or "") in _DATACLASS]
+            if not decos and "NamedTuple" not in c.base_names:
+                continue
+            is_data = True
+            for st in self.raw_body(c):
+                if isinstance(st, ast.AnnAssign) and isinstance(st.target, ast.Name):
+                    ann = u(st.annotation)
+                    if "ClassVar" in ann:
+                        continue
+                    if "InitVar" in ann:
+                        raise CannotEval(f"InitVar field {st.target.id}")
+                    out[st.target.id] = st.value
+        return list(out.items()) if is_data else None
+
+    def is_frozen(self, kls):
+        for c in self.tab.mro(kls):
+            if "NamedTuple" in c.base_names:
+                return True
+            for d in c.node.decorator_list:
+                if isinstance(d, ast.Call) and (dotted(d.func) or "") in _DATACLASS and any(k.arg == "frozen" and isinstance(k.value, ast.Constant) and k.value.value is True for k in d.keywords):
+                    return True
+        return False
+
+    def construct_namedtuple(self, nt, n, env):
+        """the value of `T(...)` for a module-level `T = namedtuple("T", <literal field names>[, defaults=...])`"""
+        names = mev(nt.args[1], {})
+        names = names.replace(",", " ").split() if isinstance(names, str) else list(names)
+        dflt = list(mev(nt.keywords[0].value, dict(self.globals))) if nt.keywords else []
+        if any(isinstance(x, ast.Starred) for x in n.args) or any(k.arg is None for k in n.keywords) or len(n.args) > len(names) or len(dflt) > len(names):
+            raise CannotEval("star arguments")
+        given = {nm: mev(x, env) for nm, x in zip(names, n.args)}
+        for k in n.keywords:
+            if k.arg in given or k.arg not in names:
+                raise CannotEval(f"keyword {k.arg}")
+            given[k.arg] = mev(k.value, env)
+        for nm, d in zip(names[len(names) - len(dflt):], dflt):
+            given.setdefault(nm, d)
+        if any(nm not in given for nm in names):
+            raise CannotEval("namedtuple field without a value")
+        obj = _Obj(None, **{nm: given[nm] for nm in names})
+        obj.frozen = obj.is_tuple = True
+        return obj
+
+    def construct(self, kls, n, env):
+        """the object that `Class(...)` builds: its own __init__ interpreted on a fresh object, or the generated constructor of a dataclass / NamedTuple (arguments bound to the declared
+        fields in definition order, declared defaults for the rest, then __post_init__)"""
+        if any("TypedDict" in c.base_names for c in self.tab.mro(kls)):
+            if n.args or any(k.arg is None for k in n.keywords):
+                raise CannotEval("TypedDict built from something else than keywords")
+            return {k.arg: mev(k.value, env) for k in n.keywords}
+        obj = _Obj(kls)
+        init = self.tab.method(kls, "__init__")
+        if init is not None:
+            if isinstance(init, ast.AsyncFunctionDef):
+                raise CannotEval("async __init__")
+            self.invoke(init, n, env, obj)
+            obj.frozen = self.is_frozen(kls)
+            return obj
+        spec = self.data_fields(kls)
+        if spec is None:
+            raise CannotEval(f"constructor of {kls.name}")
+        if any(isinstance(x, ast.Starred) for x in n.args) or any(k.arg is None for k in n.keywords):
+            raise CannotEval("star arguments")
+        params, later = [], {}
+        for name, d in spec:
+            if isinstance(d, ast.Call) and (dotted(d.func) or "").split(".")[-1] == "field":
+                kw = {k.arg: k.value for k in d.keywords}
+                if "default" in kw:
+                    d = kw["default"]
+                elif "default_factory" in kw:
+                    fac = kw["default_factory"]
+                    d = ("factory", fac)
+                else:
+                    d = None
+                if "init" in kw and not (isinstance(kw["init"], ast.Constant) and kw["init"].value is True):
+                    later[name] = d
+                    continue
+            params.append((name, d))
+        if len(n.args) > len(params):
+            raise CannotEval(f"too many arguments for {kls.name}(...)")
+        given = {name: mev(x, env) for (name, _), x in zip(params, n.args)}
+        for k in n.keywords:
+            if k.arg in given or k.arg not in [p for p, _ in params]:
+                raise CannotEval(f"keyword {k.arg} of {kls.name}(...)")
+            given[k.arg] = mev(k.value, env)
+
+        def default(name, d):
+            if d is None:
+                raise CannotEval(f"{kls.name}(...) without a value for {name}")
+            if isinstance(d, tuple):
+                fac = d[1]
+                if isinstance(fac, ast.Name) and fac.id in _FACTORIES:
+                    return _FACTORIES[fac.id]()
+                if isinstance(fac, ast.Lambda) and not fac.args.args:
+                    return mev(fac.body, dict(self.globals))
+                raise CannotEval(f"default factory of {name}")
+            return mev(d, dict(self.globals))
+
+        for name, d in params:
+            obj.fields[name] = given[name] if name in given else default(name, d)
+        for name, d in later.items():
+            if d is not None:
+                obj.fields[name] = default(name, d)
+        post = self.tab.method(kls, "__post_init__")
+        if post is not None:
+            self.invoke(post, ast.Call(func=n.func, args=[], keywords=[]), env, obj)
+        obj.frozen = self.is_frozen(kls)
+        obj.is_tuple = any("NamedTuple" in c.base_names for c in self.tab.mro(kls))
+        return obj
+
+    def attribute(self, n, env):
+        """(value,) of an attribute read that is not a stored field: a property of the wrapper / of a settings object (interpreted), a class-level attribute with a computable value"""
+        recv = self.peek(n.value, env)
+        if isinstance(recv, Record) and n.attr in recv.fields:
+            return None
+        kls = recv.ci if isinstance(recv, (_Obj, _Cls)) else (self.ci if isinstance(recv, _Self) else None)
+        if kls is None:
+            return None
+        try:
+            m = self.tab.method(kls, n.attr)
+            if m is not None:
+                if isinstance(recv, _Cls) or not set(decorator_names(m)) & set(_PROPERTY):
+                    return None
+                return (self.invoke(m, ast.Call(func=n, args=[], keywords=[]), env, recv),)
+            for c in self.tab.mro(kls):
+                for st in c.node.body:
+                    tgt = st.targets[0] if isinstance(st, ast.Assign) and len(st.targets) == 1 else (st.target if isinstance(st, ast.AnnAssign) and st.value is not None else None)
+                    if isinstance(tgt, ast.Name) and tgt.id == n.attr:
+                        return (mev(st.value, dict(self.globals)),)
         except CannotEval:
             return None
         return None
@@ -251,6 +480,8 @@ class Interp:
         if isinstance(t, ast.Name):
             env[t.id] = v
         elif isinstance(t, (ast.Tuple, ast.List)):
+            if isinstance(v, _Obj) and v.is_tuple:
+                v = tuple(v.fields.values())  # a named tuple unpacks in field order
             if not isinstance(v, (tuple, list)) or len(v) != len(t.elts) or any(isinstance(x, ast.Starred) for x in t.elts):
                 raise CannotEval(f"unpacking into {u(t)[:40]}")
             for x, y in zip(t.elts, v):
@@ -258,6 +489,11 @@ class Interp:
         elif isinstance(t, ast.Attribute) and isinstance(t.value, ast.Name) and isinstance(env.get(t.value.id), _Self):
             env[t.value.id].fields[t.attr] = v  # a store on the wrapper (judged by its own obligation): later reads in this call see it
             self.effects.append(t)
+        elif isinstance(t, ast.Attribute) and isinstance(self.peek(t.value, env), _Obj):
+            obj = self.peek(t.value, env)
+            if obj.frozen:
+                raise CannotEval(f"store on a frozen instance: {u(t)[:40]}")
+            obj.fields[t.attr] = v  # an object the call built itself: local state of this call
         elif isinstance(t, ast.Subscript):
             box = mev(t.value, env)
             if not isinstance(box, (dict, list)):
@@ -321,6 +557,12 @@ class Interp:
                     except TypeError as x:
                         raise CannotEval(f"{u(s)[:60]}: {x}")
                 self.effects.append(s.target)  # e.g. a counter the decision logic never reads
+                return
+            if isinstance(s.target, ast.Attribute) and isinstance(self.peek(s.target.value, env), _Obj) and type(s.op) in _AUG:
+                try:
+                    self.assign(s.target, _AUG[type(s.op)](self.xev(ast.Attribute(value=s.target.value, attr=s.target.attr, ctx=ast.Load()), env), self.xev(s.value, env)), env)
+                except TypeError as x:
+                    raise CannotEval(f"{u(s)[:60]}: {x}")
                 return
             raise CannotEval(f"augmented assignment {u(s)[:60]}")
         if isinstance(s, ast.If):
@@ -402,6 +644,24 @@ class Out:
     def text(self):
         t = {"retry": "goes on to the next attempt", "return": "returns", "raise": "re-raises the attempt's exception", "raise-other": "raises a different exception"}.get(self.kind, self.kind)
         return t + (f" ({self.note})" if self.note else "") + (f" after {len(self.sleeps)} sleep(s)" if self.sleeps else "")
+
+
+def _own_objects(values):
+    """[(object, copy of its fields)] for every _Obj reachable from these values"""
+    seen, out, work = set(), [], list(values)
+    while work:
+        v = work.pop()
+        if id(v) in seen:
+            continue
+        seen.add(id(v))
+        if isinstance(v, _Obj):
+            out.append((v, dict(v.fields)))
+            work += list(v.fields.values())
+        elif isinstance(v, (list, tuple)):
+            work += list(v)
+        elif isinstance(v, dict):
+            work += list(v.values())
+    return out
 
 
 def _closure(tab, ci, modfuncs, root):
@@ -701,6 +961,7 @@ def run(chk):
         env[L.target.id] = w.r[pos]
         final = not w.unbounded and pos == w.n - 1
         kept = dict(w.rec.fields)
+        own = _own_objects(w.env.values())  # objects the call built before the loop: every evaluated iteration starts from their state at the loop
 
         def run_(stmts):
             try:
@@ -726,6 +987,9 @@ def run(chk):
         finally:
             w.rec.fields.clear()
             w.rec.fields.update(kept)
+            for obj, fields in own:
+                obj.fields.clear()
+                obj.fields.update(fields)
         o.sleeps, o.ncalls, o.selected = list(interp.sleeps), interp.ncalls, interp.selected
         if force is None:
             observed_calls.append(o.ncalls)
@@ -761,6 +1025,23 @@ def run(chk):
     except CannotEval as e:
         raise AnchorMissing(f"Retry.__call__ up to the attempt loop is not evaluable on representative parameters: {e}")
     if flag is None:
+        # no constructor setting makes the loop unbounded. If exactly one of them (default False) is switched ON where the default runners are registered (`Retry(<runner>, <setting>=True)`, by
+        # keyword or by position), that one IS the retry-until-success setting - located by what the registration passes, and O16.1 below reports that it has no effect
+        def turned_on(attr):
+            c, p, _ = ctor_attr[attr]
+            names = params_of(c.methods["__init__"])[1:]
+            for _, v, _ in _registrations(rn, rn.func("register_default_runners"))[0]:
+                if isinstance(v, ast.Call) and last_attr(v.func) == ci.name:
+                    got = dict(zip(names, v.args))
+                    got.update({k.arg: k.value for k in v.keywords if k.arg})
+                    if isinstance(got.get(p), ast.Constant) and got[p].value is True:
+                        return True
+            return False
+
+        cands = [attr for attr, dv in settings.items() if dv is False and turned_on(attr)]
+        if len(cands) == 1:
+            flag = cands[0]
+    if flag is None:
         raise AnchorMissing("constructor setting of Retry that turns on retry-until-success")
 
     # ---- O16.1 attempt bound ----------------------------------------------------------------------------------------------------------------
@@ -779,9 +1060,11 @@ def run(chk):
         return ok
 
     bound_names = {n.id for a in L.iter.args for n in ast.walk(a) if isinstance(n, ast.Name)} | {L.target.id}
-    rebound = [n for st in L.body for n in ast.walk(st) if isinstance(n, ast.Name) and isinstance(n.ctx, (ast.Store, ast.Del)) and n.id in bound_names]
+    # (a store on an attribute of one of these names - a settings object that carries the bound - counts as well)
+    rebound = [n for st in L.body for n in ast.walk(st) if isinstance(n.ctx if isinstance(n, (ast.Name, ast.Attribute)) else None, (ast.Store, ast.Del))
+               and (n.id if isinstance(n, ast.Name) else (n.value.id if isinstance(n.value, ast.Name) else None)) in bound_names]
     chk.ob("O16.1", "for attempt in range(...): the counter and the bound are not re-bound inside the loop", not rebound, rebound[0] if rebound else L,
-           u(L.iter) + (f"; `{rebound[0].id}` is assigned in the loop body" if rebound else ""))
+           u(L.iter) + (f"; `{u(rebound[0])}` is assigned in the loop body" if rebound else ""))
 
     def ob_bound():
         bad = []
@@ -967,7 +1250,9 @@ def run(chk):
            "" if not changed else f"{changed[0].before} became {changed[0].params}: later invocations with the same dict run with other retry settings")
 
     # ---- O16.4 shadowing -------------------------------------------------------------------------------------------------------------------------------
-    chk.rule("O16.4", "a handler that is completely shadowed by an earlier superclass handler (dead arm) must not classify differently from its shadow", 4,
+    # one instance per arm of the located try: the NUMBER of arms is not part of the property (identical arms merged, one broad arm that classifies by isinstance), so the floor is the
+    # hand-confirmed count of the pinned tree (4) only as long as the try has that many arms; the try itself is anchored above (AnchorMissing if it is not found)
+    chk.rule("O16.4", "a handler that is completely shadowed by an earlier superclass handler (dead arm) must not classify differently from its shadow", min(4, len(T.handlers)),
              "a classification that can never apply hides the intended behaviour (the decision table above is computed over the handler Python really selects)")
     handlers = [(h, interp.hnames(h)) for h in T.handlers]
 
@@ -995,10 +1280,39 @@ def run(chk):
     reg = rn.func("register_default_runners")
     regs_all, reg_unknown = _registrations(rn, reg)
 
+    reg_defs = local_defs(reg)
+    reg_funcs = {**modfuncs, **{n.name: n for n in reg.body if isinstance(n, FUNC_TYPES)}}
+
+    def wrapping(e, depth=0):
+        """what a registered runner expression is: 'retry' (an instance of the retry wrapper: Retry(...), a subclass, an alias of the class, a factory function that returns one),
+        'plain' (an instance of another class of the module, built directly) or None (not recognised)"""
+        if not isinstance(e, ast.Call) or depth > 3:
+            return None
+        f = e.func
+        if isinstance(f, ast.Name) and f.id not in tab.by_name and f.id not in reg_funcs:
+            d = reg_defs.get(f.id) or rn.module_constant(f.id)  # an alias: retryable = Retry / functools.partial(Retry, ...)
+            if isinstance(d, ast.Call) and last_attr(d.func) == "partial" and d.args:
+                d = d.args[0]
+            if isinstance(d, (ast.Name, ast.Attribute)):
+                f = d
+        name = last_attr(f) if isinstance(f, (ast.Name, ast.Attribute)) else None
+        if isinstance(f, ast.Name) and name in reg_funcs:
+            binds = source.bind_args(e, reg_funcs[name], skip_self=False)  # (a factory that hands its argument back unwrapped is judged on the argument)
+            kinds = {wrapping(source.inline_node(st.value, binds), depth + 1) if st.value is not None else None for st in walk_body(reg_funcs[name]) if isinstance(st, ast.Return)}
+            return kinds.pop() if len(kinds) == 1 else None
+        cands = tab.by_name.get(name, []) if name else []
+        if cands:
+            return "retry" if any(c.node is R for k_ in cands for c in tab.mro(k_)) else "plain"
+        return None
+
     def is_retry(e):
-        return isinstance(e, ast.Call) and last_attr(e.func) == "Retry"
+        return wrapping(e) == "retry"
 
     def op_name(e):
+        if isinstance(e, ast.Constant) and isinstance(e.value, str):
+            return e.value
+        if isinstance(e, ast.Call) and isinstance(e.func, ast.Attribute) and e.func.attr == "to_hyphenated_string" and not e.args:
+            e = e.func.value
         return re.sub(r"(?<!^)(?=[A-Z])", "-", u(e).split(".")[-1]).lower()
 
     wrapped = sorted({u(k) for k, v, _ in regs_all if is_retry(v)})
@@ -1022,7 +1336,11 @@ def run(chk):
             chk.adv("O16.5", f"documented retryable operation `{op}` has no default registration under that name", reg)
             continue
         v, site = regs[op]
-        chk.ob("O16.5", f"`{op}` (documented as retryable) is registered through Retry", is_retry(v), site, f"registered runner: {short(v, 70)}", key=f"{_R}:register_default_runners:retry:{op}")
+        kind = wrapping(v)
+        if kind is None:
+            chk.unknown("O16.5", f"`{op}`: the registered runner `{short(v, 60)}` is neither recognised as an instance of the retry wrapper nor as a directly built runner", site)
+            continue
+        chk.ob("O16.5", f"`{op}` (documented as retryable) is registered through Retry", kind == "retry", site, f"registered runner: {short(v, 70)}", key=f"{_R}:register_default_runners:retry:{op}")
 
     # ---- O16.6 the retry settings reach the wrapper ----------------------------------------------------------------------------------------------------------
     chk.rule("O16.6", "for every operation documented as retryable the registered parameter source hands the task's own parameters (and with them retries, retry-until-success, "
@@ -1044,9 +1362,9 @@ def run(chk):
         raise AnchorMissing("the attribute in which ParamSource.__init__ keeps the task's parameters")
 
     def is_self_params(n, sn):
-        # self._params used as a value: dict(self._params), p.update(self._params), {**self._params}, return self._params, copy
+        # self._params used as a value: dict(self._params), p.update(self._params), {**self._params}, return self._params, copy, iteration over it / over its items()
         return isinstance(n, ast.Attribute) and isinstance(n.value, ast.Name) and n.value.id == sn and n.attr in task_attrs and isinstance(n.ctx, ast.Load) \
-            and not isinstance(source.parent(n), ast.Subscript) and not (isinstance(source.parent(n), ast.Attribute) and source.parent(n).attr != "copy") \
+            and not isinstance(source.parent(n), ast.Subscript) and not (isinstance(source.parent(n), ast.Attribute) and source.parent(n).attr not in ("copy", "items")) \
             and not (isinstance(source.parent(n), ast.Call) and source.parent(n).func is n)
 
     def forwards(cname):
@@ -1110,6 +1428,63 @@ def _helper(retries='params.get("retries", 0) + 1', forced="True"):
             "        sleep_time = params.get(\"retry-wait-period\", 0.5)\n        retry_on_timeout = params.get(\"retry-on-timeout\", True)\n"
             "        return max_attempts, retry_on_error, retry_on_timeout, sleep_time\n\n")
 
+
+_DC = ("from dataclasses import dataclass\n\n\n@dataclass(frozen=True)\nclass RetrySettings:\n    max_attempts: int\n    wait_period: float\n    retry_on_timeout: bool\n    retry_on_error: bool\n\n"
+       "    @classmethod\n    def from_params(cls, params, retry_until_success=False):\n        if params.get(\"retry-until-success\", retry_until_success):\n            max_attempts = sys.maxsize\n"
+       "            retry_on_error = True\n        else:\n            max_attempts = params.get(\"retries\", 0) + 1\n            retry_on_error = params.get(\"retry-on-error\", False)\n"
+       "        return cls(\n            max_attempts=max_attempts,\n            wait_period=params.get(\"retry-wait-period\", 0.5),\n            retry_on_timeout=params.get(\"retry-on-timeout\", True),\n"
+       "            retry_on_error=retry_on_error,\n        )\n\n\n")
+_POLICY = ("class RetryPolicy:\n    def __init__(self, params, unbounded_by_default):\n        self._unbounded = params.get(\"retry-until-success\", unbounded_by_default)\n"
+           "        self._retries = params.get(\"retries\", 0)\n        self.on_error = True if self._unbounded else params.get(\"retry-on-error\", False)\n"
+           "        self.on_timeout = params.get(\"retry-on-timeout\", True)\n        self.pause = params.get(\"retry-wait-period\", 0.5)\n\n"
+           "    @property\n    def limit(self):\n        return sys.maxsize if self._unbounded else self._retries + 1\n\n"
+           "    def is_last(self, attempt):\n        return attempt + 1 == self.limit\n\n\n")
+_CLS = "class Retry(Runner, Delegator):\n"
+_NT_UNPACK = "        max_attempts, sleep_time, retry_on_timeout, retry_on_error = _retry_plan(params, self.retry_until_success)\n"
+
+
+def _nt(decl, build="RetryPlan(max_attempts, params.get(\"retry-wait-period\", 0.5), params.get(\"retry-on-timeout\", True), retry_on_error)"):
+    return (decl + "def _retry_plan(params, unbounded_by_default):\n    if params.get(\"retry-until-success\", unbounded_by_default):\n        max_attempts, retry_on_error = sys.maxsize, True\n"
+            "    else:\n        max_attempts, retry_on_error = params.get(\"retries\", 0) + 1, params.get(\"retry-on-error\", False)\n"
+            f"    return {build}\n\n\n")
+
+
+_NT_CLASS = "class RetryPlan(typing.NamedTuple):\n    max_attempts: int\n    wait_period: float\n    retry_on_timeout: bool\n    retry_on_error: bool = False\n\n\n"
+_NT_CALL = "RetryPlan = collections.namedtuple(\"RetryPlan\", \"max_attempts wait_period retry_on_timeout retry_on_error\")\n\n\n"
+_WAIT = "    async def wait(self):\n        await asyncio.sleep(self.pause)\n\n\n"
+_ARMS = r"            except \(socket\.timeout, elasticsearch\.exceptions\.ConnectionError\):.*?never retry it\n                raise e\n"
+_ONE_ARM = "            except Exception as e:\n                if last_attempt or not retry_on_timeout or not self._is_timeout(e):\n                    raise\n                await asyncio.sleep(sleep_time)\n"
+
+
+def _is_timeout(api="return e.status_code == 408", classes="(socket.timeout, elasticsearch.exceptions.ConnectionError, elasticsearch.exceptions.ConnectionTimeout)"):
+    return ("    @staticmethod\n    def _is_timeout(e):\n        # pylint: disable=import-outside-toplevel\n        import socket\n\n        import elasticsearch\n\n"
+            f"        if isinstance(e, elasticsearch.ApiError):\n            {api}\n        return isinstance(e, {classes})\n\n")
+
+
+_CONN_ARM = "                if last_attempt or not policy.on_timeout:\n                    raise\n                await asyncio.sleep(policy.pause)"
+
+
+def _settings_object(kind, rule, cls_text, ctor="settings = RetrySettings.from_params(params, self.retry_until_success)", names=("settings.max_attempts", "settings.retry_on_error", "settings.wait_period", "settings.retry_on_timeout"),
+                     last=None, then=None):
+    """the retry settings live in an object of another class of the module; the loop reads its attributes (the shape of benign/C16-b7)"""
+    a, e, w, t = names
+    out = [V("", kind, _R, _SETTINGS, f"        {ctor}\n", rule)]
+    if last is not None:
+        out.append(V("", kind, _R, "            last_attempt = attempt + 1 == max_attempts\n", f"            last_attempt = {last}\n", rule))
+    out += [V("", kind, _R, r"\bmax_attempts\b", a, rule, count=2 if last is None else 1, regex=True), V("", kind, _R, r"\bretry_on_error\b", e, rule, count=1, regex=True),
+            V("", kind, _R, r"\bsleep_time\b", w, rule, count=7, regex=True), V("", kind, _R, r"\bretry_on_timeout\b", t, rule, count=3, regex=True),
+            V("", kind, _R, _CLS, cls_text + _CLS, rule)]
+    if then is not None:
+        out.append(V("", kind, _R, then[0], then[1], rule))
+    return out
+
+
+def _named(name, edits):
+    edits[0].name = name
+    return edits
+
+
+_POLICY_NAMES = ("policy.limit", "policy.on_error", "policy.pause", "policy.on_timeout")
 
 VARIANTS = [
     V("F6: other transport errors swallowed", "break", _R, "                # any other transport error (e.g. a serialization error) is neither a timeout nor a connection error: never retry it\n                raise e",
@@ -1191,6 +1566,15 @@ VARIANTS = [
     V("registration through a local helper function", "keep", _R, _REG2,
       "    def register_retryable(operation_type, runner):\n        register_runner(operation_type, Retry(runner), async_runner=True)\n\n"
       "    register_retryable(track.OperationType.ClusterHealth, ClusterHealth())\n    register_retryable(track.OperationType.PutPipeline, PutPipeline())\n"),
+    V("registration of runners built by a local factory function that wraps them", "keep", _R, _REG2,
+      "    def retryable(runner):\n        return Retry(runner)\n\n"
+      "    register_runner(track.OperationType.ClusterHealth, retryable(ClusterHealth()), async_runner=True)\n    register_runner(track.OperationType.PutPipeline, retryable(PutPipeline()), async_runner=True)\n"),
+    V("registration of runners built by a local factory function that hands them back unwrapped", "break", _R, _REG2,
+      "    def retryable(runner):\n        return runner\n\n"
+      "    register_runner(track.OperationType.ClusterHealth, retryable(ClusterHealth()), async_runner=True)\n    register_runner(track.OperationType.PutPipeline, retryable(PutPipeline()), async_runner=True)\n", "O16.5"),
+    V("registration through an alias of the wrapper class, operation types as documented strings", "keep", _R, _REG2,
+      "    with_retries = Retry\n"
+      "    register_runner(\"cluster-health\", with_retries(ClusterHealth()), async_runner=True)\n    register_runner(track.OperationType.PutPipeline.to_hyphenated_string(), with_retries(PutPipeline()), async_runner=True)\n"),
     V("settings as conditional expressions", "keep", _R, _SETTINGS.split("        sleep_time")[0],
       "        rus = params.get(\"retry-until-success\", self.retry_until_success)\n        max_attempts = sys.maxsize if rus else params.get(\"retries\", 0) + 1\n"
       "        retry_on_error = rus or params.get(\"retry-on-error\", False)\n"),
@@ -1217,6 +1601,57 @@ VARIANTS = [
       "                raise exceptions.RallyError(\"transport error\") from e", "O16.2"),
     V("validation guard before the attempt loop", "keep", _R, "        for attempt in range(max_attempts):\n",
       "        if max_attempts < 1:\n            raise exceptions.RallyAssertionError(\"retries must not be negative\")\n        for attempt in range(max_attempts):\n"),
+    # ---- hardening round 3: the settings live in an object of ANOTHER class of the module (dataclass with an alternative constructor, class with __init__ / property / method)
+    _named("retry settings in a frozen dataclass built by a classmethod, read as attributes in the loop", _settings_object("keep", None, _DC)),
+    _named("settings dataclass: alternative constructor forgets the + 1", _settings_object("break", "O16.1", _DC.replace('params.get("retries", 0) + 1', 'params.get("retries", 0)'))),
+    _named("settings dataclass: alternative constructor does not force retry-on-error", _settings_object("break", "O16.1", _DC.replace("retry_on_error = True", 'retry_on_error = params.get("retry-on-error", False)'))),
+    _named("settings dataclass: the two switches are swapped in the constructor call", _settings_object(
+        "break", "O16.", _DC.replace('retry_on_timeout=params.get("retry-on-timeout", True)', "retry_on_timeout=retry_on_error").replace("retry_on_error=retry_on_error,", 'retry_on_error=params.get("retry-on-timeout", True),'))),
+    _named("settings dataclass: built positionally in another order than the fields are declared", _settings_object(
+        "break", "O16.", _DC.replace("max_attempts=max_attempts,", "max_attempts,").replace('wait_period=params.get("retry-wait-period", 0.5)', 'params.get("retry-on-timeout", True)')
+        .replace('retry_on_timeout=params.get("retry-on-timeout", True)', 'params.get("retry-wait-period", 0.5)').replace("retry_on_error=retry_on_error,", "retry_on_error,"))),
+    _named("settings dataclass: wait period is a field default that the constructor never overrides", _settings_object(
+        "break", "O16.", _DC.replace("    wait_period: float\n    retry_on_timeout: bool\n    retry_on_error: bool\n", "    retry_on_timeout: bool\n    retry_on_error: bool\n    wait_period: float = 0.5\n")
+        .replace('            wait_period=params.get("retry-wait-period", 0.5),\n', ""))),
+    _named("settings dataclass (not frozen): the bound is decremented inside the loop", _settings_object(
+        "break", "O16.1", _DC.replace("@dataclass(frozen=True)", "@dataclass"), then=("            last_attempt = attempt + 1 == settings.max_attempts\n", "            last_attempt = attempt + 1 == settings.max_attempts\n            settings.max_attempts -= 1\n"))),
+    _named("retry settings in a plain class: __init__ reads the parameters, the bound is a property, the last attempt is recognised by a method", _settings_object(
+        "keep", None, _POLICY, ctor="policy = RetryPolicy(params, self.retry_until_success)", names=_POLICY_NAMES, last="policy.is_last(attempt)")),
+    _named("settings class: the property that computes the bound forgets the + 1", _settings_object(
+        "break", "O16.1", _POLICY.replace("self._retries + 1", "self._retries"), ctor="policy = RetryPolicy(params, self.retry_until_success)", names=_POLICY_NAMES, last="policy.is_last(attempt)")),
+    _named("settings class: is_last() is one off", _settings_object(
+        "break", "O16.1", _POLICY.replace("attempt + 1 == self.limit", "attempt == self.limit"), ctor="policy = RetryPolicy(params, self.retry_until_success)", names=_POLICY_NAMES, last="policy.is_last(attempt)")),
+    _named("settings class: __init__ ignores the wrapper's retry-until-success default", _settings_object(
+        "break", "O16.1", _POLICY.replace('params.get("retry-until-success", unbounded_by_default)', 'params.get("retry-until-success", False)'), ctor="policy = RetryPolicy(params, self.retry_until_success)",
+        names=_POLICY_NAMES, last="policy.is_last(attempt)")),
+    [V("settings in a typing.NamedTuple built by a module function, unpacked by the caller", "keep", _R, _SETTINGS, _NT_UNPACK), V("", "keep", _R, _CLS, _nt(_NT_CLASS) + _CLS)],
+    [V("settings in a collections.namedtuple built by a module function, unpacked by the caller", "keep", _R, _SETTINGS, _NT_UNPACK), V("", "keep", _R, _CLS, _nt(_NT_CALL) + _CLS)],
+    [V("settings NamedTuple: built in another order than the fields are declared and unpacked", "break", _R, _SETTINGS, _NT_UNPACK, "O16."),
+     V("", "break", _R, _CLS, _nt(_NT_CLASS, "RetryPlan(max_attempts, params.get(\"retry-wait-period\", 0.5), retry_on_error, params.get(\"retry-on-timeout\", True))") + _CLS)],
+    [V("settings namedtuple: the last field silently falls back to its declared default", "break", _R, _SETTINGS, _NT_UNPACK, "O16."),
+     V("", "break", _R, _CLS, _nt(_NT_CLASS, "RetryPlan(max_attempts, params.get(\"retry-wait-period\", 0.5), params.get(\"retry-on-timeout\", True))") + _CLS)],
+    _named("settings class with a coroutine method that does the waiting", _settings_object(
+        "keep", None, _POLICY.rstrip("\n") + "\n\n" + _WAIT, ctor="policy = RetryPolicy(params, self.retry_until_success)", names=_POLICY_NAMES, last="policy.is_last(attempt)",
+        then=(_CONN_ARM, _CONN_ARM.replace("asyncio.sleep(policy.pause)", "policy.wait()")))),
+    _named("settings class: the waiting method waits for the default period, not the configured one", _settings_object(
+        "break", "O16.", _POLICY.rstrip("\n") + "\n\n" + _WAIT.replace("self.pause", "0.5"), ctor="policy = RetryPolicy(params, self.retry_until_success)", names=_POLICY_NAMES, last="policy.is_last(attempt)",
+        then=(_CONN_ARM, _CONN_ARM.replace("asyncio.sleep(policy.pause)", "policy.wait()")))),
+    _named("settings class: the waiting method is called without await", _settings_object(
+        "break", "O16.3", _POLICY.rstrip("\n") + "\n\n" + _WAIT, ctor="policy = RetryPolicy(params, self.retry_until_success)", names=_POLICY_NAMES, last="policy.is_last(attempt)",
+        then=(_CONN_ARM, _CONN_ARM.replace("await asyncio.sleep(policy.pause)", "policy.wait()")))),
+    [V("one broad handler, the exception is classified by isinstance in a static helper", "keep", _R, _ARMS, _ONE_ARM, regex=True), V("", "keep", _R, _REPR, _is_timeout() + _REPR)],
+    [V("isinstance classification: every API error counts as a timeout", "break", _R, _ARMS, _ONE_ARM, "O16.2", regex=True), V("", "break", _R, _REPR, _is_timeout(api="return True") + _REPR)],
+    [V("isinstance classification: tests the common superclass of all transport errors", "break", _R, _ARMS, _ONE_ARM, "O16.2", regex=True),
+     V("", "break", _R, _REPR, _is_timeout(classes="(socket.timeout, elasticsearch.exceptions.TransportError)") + _REPR)],
+    [V("isinstance classification: connection timeouts forgotten", "break", _R, _ARMS, _ONE_ARM, "O16.2", regex=True),
+     V("", "break", _R, _REPR, _is_timeout(classes="(socket.timeout, elasticsearch.exceptions.ConnectionError)") + _REPR)],
+    [V("connection-timeout arm folded into the first arm and removed (three arms left)", "keep", _R, "            except (socket.timeout, elasticsearch.exceptions.ConnectionError):",
+       "            except (socket.timeout, elasticsearch.exceptions.ConnectionError, elasticsearch.exceptions.ConnectionTimeout):"),
+     V("", "keep", _R, "            except elasticsearch.exceptions.ConnectionTimeout as e:\n                if last_attempt or not retry_on_timeout:\n                    raise e\n\n"
+       "                self.logger.info(\"[%s] has timed out. Retrying in [%.2f] seconds.\", repr(self.delegate), sleep_time)\n                await asyncio.sleep(sleep_time)\n", "")],
+    V("connection-timeout arm removed without folding it into another arm", "break", _R,
+      "            except elasticsearch.exceptions.ConnectionTimeout as e:\n                if last_attempt or not retry_on_timeout:\n                    raise e\n\n"
+      "                self.logger.info(\"[%s] has timed out. Retrying in [%.2f] seconds.\", repr(self.delegate), sleep_time)\n                await asyncio.sleep(sleep_time)\n", "", "O16.2"),
     [V("parameter source forwards the task's parameters through a helper method", "keep", "esrally/track/params.py", "        p = {}\n        # ensure we pass all parameters...\n        p.update(self._params)\n        p.update(\n            {\n                \"indices\": self.index_definitions,\n                \"request-params\": self.request_params,\n            }",
        "        p = self._task_params()\n        p.update(\n            {\n                \"indices\": self.index_definitions,\n                \"request-params\": self.request_params,\n            }"),
      V("", "keep", "esrally/track/params.py", "    def _client_params(self):\n", "    def _task_params(self):\n        return dict(self._params)\n\n    def _client_params(self):\n")],
